@@ -96,6 +96,37 @@ theorem i_roundtrip_str {s n r : Nat} {x : List Nat} (hn : 1 ≤ n) (hs3 : 3 ≤
 example : (II.toStrRadix (2 ^ 3) [0x00, 0x80] 16).bind (fun s => II.fromStrRadix (2 ^ 3) 2 s 16)
     = .ok (.ok [0x00, 0x80]) := by decide
 
+theorem roundtrip_be {w n r sh : Nat} {x : List Nat} (hn : 1 ≤ n) (hwb : w = 8 * 2 ^ sh)
+    (hx : WF w n x) (hr : 2 ≤ r) (hr256 : r ≤ 256) :
+    (UI.toRadixBe w x r).bind (fun ds => UI.fromRadixBe w n ds r) = .ok (some x) := by
+  have hw : 8 ≤ w := by have := Nat.pow_pos (n := sh) (show 0 < 2 by omega); omega
+  rw [UI.toRadixBe_spec hn hw hx hr hr256]
+  show UI.fromRadixBe w n _ r = _
+  have hlt : ∀ d ∈ canonBE r (U w x), d < r := by
+    intro d hd; unfold canonBE at hd; exact canonLE_lt hr d (by simpa using hd)
+  rw [UI.fromRadixBe_spec hn hwb hr hr256 _ (fun b hb => by have := hlt b hb; omega)]
+  unfold expectDigits
+  rw [valueOf_canonBE hr, if_pos ⟨by simpa using hlt, U_lt hx⟩]
+  simp only [Option.map_some]
+  rw [← eq_ofNat hx]
+example : (UI.toRadixBe 8 [0x39, 0x30] 200).bind (fun ds => UI.fromRadixBe 8 2 ds 200)
+    = .ok (some [0x39, 0x30]) := by decide
+
+theorem roundtrip_le {w n r sh : Nat} {x : List Nat} (hn : 1 ≤ n) (hwb : w = 8 * 2 ^ sh)
+    (hx : WF w n x) (hr : 2 ≤ r) (hr256 : r ≤ 256) :
+    (UI.toRadixLe w x r).bind (fun ds => UI.fromRadixLe w n ds r) = .ok (some x) := by
+  have hw : 8 ≤ w := by have := Nat.pow_pos (n := sh) (show 0 < 2 by omega); omega
+  rw [UI.toRadixLe_spec hn hw hx hr hr256]
+  show UI.fromRadixLe w n _ r = _
+  have hlt := canonLE_lt (v := U w x) hr
+  rw [UI.fromRadixLe_spec hn hwb hr hr256 _ (fun b hb => by have := hlt b hb; omega)]
+  unfold expectDigits
+  rw [valueOf_reverse, valueOfLE_canonLE hr, if_pos ⟨by simpa using hlt, U_lt hx⟩]
+  simp only [Option.map_some]
+  rw [← eq_ofNat hx]
+example : (UI.toRadixLe 8 [0x39, 0x30] 256).bind (fun ds => UI.fromRadixLe 8 2 ds 256)
+    = .ok (some [0x39, 0x30]) := by decide
+
 /-! ### panics: exactly for an out-of-range radix -/
 
 theorem toRadixLe_panic_iff {w n : Nat} {x : List Nat} (hn : 1 ≤ n) (hw8 : 8 ≤ w) (hx : WF w n x)
